@@ -58,8 +58,16 @@ class G:
             fs = [f for f, (_, t, mv) in TXN_FIELDS.items() if t == U and mv <= self.cfg.version]
             gs = [f for f, (_, t, mv) in GLOBAL_FIELDS.items() if t == U and mv <= self.cfg.version]
             self.note("field")
-            if r.random() < 0.6:
+            k = r.random()
+            if k < 0.5:
                 return ("txn", r.choice(fs))
+            if k < 0.65:
+                # a field of another transaction of the group: constant index (gtxn) or computed index (gtxns, v3+)
+                self.note("gtxn")
+                gf = [f for f in fs if TXN_FIELDS[f][0] is not None]
+                if self.cfg.version >= 3 and r.random() < 0.3:
+                    return ("gtxn", ("op", "Mod", [("txn", "GroupIndex"), ("int", 2)]), r.choice(gf))
+                return ("gtxn", r.randrange(0, 3), r.choice(gf))
             return ("global", r.choice(gs))
         else:
             if c < 0.6:
